@@ -1,5 +1,13 @@
 SPEC_PART = dict(
     props_file="C13_theta",
-    legs=[dict(family="theta", focus="foreign", oracles=["foreign_ok"], profiles=["debug", "release"],
+    legs=[dict(family="theta", focus="foreign", oracles=["foreign_ok", "roundtrip_ok"], profiles=["debug", "release"],
                mask=[7, 12, 13, 15], n_quick=60, n_thorough=600, panic_is_violation=True)],
-    trusted=[], assumptions=[], covers="theta: TBD")
+    trusted=["the images fed to the crate are produced by an encoder in tools/families/theta.py written from the format description "
+             "(independent of the crate and of the Coq model); the oracle decodes them with Spec/ThetaLayout.v"],
+    assumptions=[],
+    covers="theta: c_deserialize(enc_spec v a) = Ok (the state a) for serVer 1, serVer 2 (empty / exact / estimating), serVer 3 "
+           "(empty, single item with or without SINGLE_ITEM flag, exact, estimating incl. zero entries, ordered / unordered) and "
+           "serVer 4 (all widths), for every admissible abstract state; the value read is well-formed for both writers. Repaired "
+           "D11 (serVer 2 exact decoded as empty). Tie: every image accepted by the independent decoder must be read by the crate "
+           "to exactly the decoded state (entries in order, theta, seed hash, emptiness, estimate bit for bit) and re-serialize "
+           "(both writers) to images that decode to the same state; entry counts at powers of 256 (255..257, 65535..65537)")
